@@ -13,6 +13,7 @@ import (
 	"encoding/json"
 	"errors"
 	"fmt"
+	"github.com/tailscale/setec/types/api"
 	"math/rand/v2"
 	"net/netip"
 	"os"
@@ -92,8 +93,13 @@ func (s *sink) since(m int) []*rec {
 
 // (names are whatever a client sends: control characters, DEL, code points outside the BMP, path-like aliases of
 // other names; a record still is one line of JSON naming exactly that name)
-var pool = []string{"a", "b", "dir/c", "", "_internal/x", "dir/../a", "dir//c", "bell\a\x01", "del\x7f\v", "tag\U000e0001x", "quote\"back\\slash", "uni\u2028sep"}
-var rulePatterns = []string{"a", "b", "*", "dir/*", "zzz"}
+var pool = []string{"a", "b", "dir/c", "", "_internal/x", "dir/../a", "dir//c", "bell\a\x01", "del\x7f\v", "tag\U000e0001x", "quote\"back\\slash", "uni\u2028sep", longNameA, longNameB}
+
+// two names of 300 bytes that differ only at their very end
+var longNameA = "long/" + strings.Repeat("abcdefghij", 29) + "/tail-A"
+var longNameB = "long/" + strings.Repeat("abcdefghij", 29) + "/tail-B"
+
+var rulePatterns = []string{"a", "b", "*", "dir/*", "zzz", "long/*"}
 var actions = []string{"get", "info", "put", "activate", "delete"}
 
 func genRules(rng *rand.Rand) []refmodel.Rule {
@@ -147,9 +153,10 @@ func TestC06(t *testing.T) {
 		auditFileAcrossRestarts(t, r, dir)
 		tornWrites(t, r, dir)
 		refusalBursts(t, r, dir)
+		manyVersions(t, r, dir)
 	}
 	r.Require("calls_with_one_record", "calls_with_no_record", "denied_calls_recorded", "unchanged_conditional_gets", "write_failures_injected", "sync_failures_injected",
-		"mutations_logged_before_effect", "concurrent_lines", "concurrent_durability_checks", "server_level_denials", "server_level_entitled_calls", "audit_file_reopens", "calls_after_a_torn_record", "refusals_in_bursts")
+		"mutations_logged_before_effect", "concurrent_lines", "concurrent_durability_checks", "server_level_denials", "server_level_entitled_calls", "audit_file_reopens", "calls_after_a_torn_record", "refusals_in_bursts", "versions_accounted_for")
 	r.Rule("sequential: seeded histories of ~30 calls (all 9 operations, callers with random rule sets incl. none, names incl. empty and reserved); per call the records captured between invocation and return are compared with the expectation table; in a third of the histories the sink fails the Write or the Sync of one chosen record. Concurrent: 16 goroutines x mixed calls with unique (user, secret) pairs on a real audit file; every line must parse and the multiset of records must equal the expected one. Distinct = (operation, authorised?, records expected, failure injected)")
 }
 
@@ -851,4 +858,57 @@ func refusalBursts(t *testing.T, r *evid.Run, dir string) {
 		}
 		r.Distinct("burst of refusals " + string(op.Kind))
 	}
+}
+
+// manyVersions: one secret receives a long row of new versions (a credential rotated daily). A version is
+// there until somebody deletes it - and every deletion has its record: whatever is missing at the end without
+// a delete record naming it was removed behind the audit log's back.
+func manyVersions(t *testing.T, r *evid.Run, dir string) {
+	snk := &sink{path: filepath.Join(dir, "manyversions.db")}
+	d, err := db.Open(snk.path, realdb.DummyKey("c06mv"), audit.New(snk))
+	if err != nil {
+		t.Fatal(err)
+	}
+	su := realdb.Super()
+	n := r.N(80, 400)
+	deleted := map[uint32]bool{}
+	for i := 1; i <= n; i++ {
+		if _, err := d.Put(su, "rotated", []byte(fmt.Sprintf("value-%d", i))); err != nil {
+			r.Violation("result-differs", -1, fmt.Sprintf("put #%d of one secret fails: %v", i, err), nil)
+			return
+		}
+		if i%9 == 0 {
+			d.Activate(su, "rotated", api.SecretVersion(i))
+		}
+		if i%13 == 0 {
+			if err := d.DeleteVersion(su, "rotated", api.SecretVersion(i-5)); err == nil {
+				deleted[uint32(i-5)] = true
+			}
+		}
+	}
+	in, err := d.Info(su, "rotated")
+	if err != nil {
+		r.Violation("result-differs", -1, err.Error(), nil)
+		return
+	}
+	present := map[uint32]bool{}
+	for _, v := range in.Versions {
+		present[uint32(v)] = true
+	}
+	recorded := map[uint32]bool{}
+	for _, rc := range snk.since(0) {
+		var e audit.Entry
+		if json.Unmarshal(rc.bytes, &e) == nil && e.Action == "delete" && e.Secret == "rotated" && e.Authorized {
+			recorded[uint32(e.SecretVersion)] = true
+		}
+	}
+	for v := uint32(1); v <= uint32(n); v++ {
+		r.Eval(1)
+		r.Count("versions_accounted_for", 1)
+		if !present[v] && !recorded[v] {
+			r.Violation("deletion-without-record", -1, fmt.Sprintf("after %d puts on one secret version %d is gone, and no delete record names it (deleted on request: %t)", n, v, deleted[v]), nil)
+			return
+		}
+	}
+	r.Distinct("many versions of one secret")
 }
